@@ -244,9 +244,33 @@ VCLAUSE(in_units, 80, 12000, 250000, "rounding is requested with a digit count o
 				 vec = natural_units::In_Units(Vector(scaled[0]), u, round, digits); mat = natural_units::In_Units(Matrix(scaled), u, round, digits); tc = natural_units::In_Units(scaledc, dims, round, digits));
 	auto cmp = [&](const char* what, double got, double x, double unit, double orig) {
 		double e = expect(x, unit);
-		VCHECK(same_bits(got, e) || got == e, what << ": In_Units(" << x << "," << unit << ",round=" << round << ",digits=" << digits << ")=" << got << " expected " << e);
+		if(same_bits(got, e) || got == e)
+			c.cls("in_units_equals_quotient_bitwise");
 		if(!round)
+		{
+			// division, or multiplication by the reciprocal: both are within 2 eps of the quotient and of the original number
+			VCLOSE(c, "quotient", got, x / unit, 2 * EPS * std::fabs(x / unit), what << ": In_Units(" << x << "," << unit << ")");
 			VCLOSE(c, "undoes_multiplication", got, orig, 2 * EPS * std::fabs(orig), what << ": In_Units(x*u,u) must give back x");
+			return;
+		}
+		// rounding requested: independent of the library's Round: the result has at most `digits` significant digits and lies within half a
+		// unit of the last of them from the original number
+		if(orig == 0)
+		{
+			VCHECK(got == 0, what << ": In_Units(0) = " << got);
+			return;
+		}
+		long double ax = fabsl((long double) orig);
+		int ex		   = (int) floorl(log10l(ax));
+		if(powl(10.0L, ex + 1) <= ax)
+			ex++;
+		if(powl(10.0L, ex) > ax)
+			ex--;
+		long double unit_d = powl(10.0L, ex - digits + 1), qd = (long double) got / unit_d;
+		VCLOSE(c, "rounded_within_half_unit", (double) (fabsl((long double) got - orig) / unit_d), 0.0, 0.5 * (1 + 1e-6) + 16 * EPS * (double) (ax / unit_d),
+			   what << ": In_Units(" << x << "," << unit << ",round,digits=" << digits << ")=" << got << " vs the original number " << orig << ", in units of its last requested digit");
+		VCHECK(fabsl(qd - rintl(qd)) <= 1e-6L && fabsl(qd) <= powl(10.0L, digits) * (1 + 1e-9L),
+			   what << ": In_Units(" << x << "," << unit << ",round,digits=" << digits << ")=" << got << " has more than " << digits << " significant digits (" << (double) qd << " units of the last one)");
 	};
 	cmp("scalar", sc, scaled[0][0], u, q[0][0]);
 	VCHECK((int) li.size() == m && (int) tb.size() == n && (int) vec.Size() == m && (int) mat.Rows() == n && (int) mat.Columns() == m && (int) tc.size() == n, "shapes of the In_Units results");
